@@ -54,7 +54,8 @@ def main():
             'engine': 'mirsym',
             'level_claimed': {'category': 'model_checking', 'text': 'bounded symbolic execution of the real MIR with z3: ' + text, 'design_ref': 'DESIGN.md ' + ref},
             'level_note': '; '.join(props.PROPS[pid]['notes'])[:1800],
-            'technique': 'solver-based symbolic execution of rustc MIR (path forking + z3 path conditions / laws), counterexamples replayed on the native build',
+            'technique': 'solver-based symbolic execution of rustc MIR (path forking + z3 path conditions / laws), counterexamples replayed on the native build'
+                         + ('; Kani/CBMC proof harnesses on the compiled scalar kernels' if pid in ('C06', 'C07', 'C13') else ''),
         })
     na = [{'property_id': k, 'reason': v} for k, v in sorted({**NA, **{k: v for k, v in PENDING.items() if k not in props.PROPS}}.items())]
     m = {
